@@ -459,3 +459,8 @@ def run(ctx):
         _c03o.caller_keeps_order(ctx, "R12.5")
     except Skip:
         pass
+
+    # ---- R12.8 explicit patterns are consulted for every path - verdict tables owned by C11 and C03
+    ctx.rule("R12.8", "explicit --ignore / --exts / --filter and --ignore-file contents are consulted for every probed path")
+    ctx.borrow("C11", ["R11.2"], "R12.8", "per path the ignore patterns come first, then extensions / filters: no explicit option shadows another")
+    ctx.borrow("C03", ["R03.2"], "R12.8", "the root node that holds explicit --ignore-file contents is reached from every path (walk to the parent)")
